@@ -1,0 +1,23 @@
+//go:build verif
+
+// Contracts for package ngram (read by /verif/gocv; comment-only effect with the verif tag off).
+
+package ngram
+
+// ---------------------------------------------------------------------------
+// C19: the n-gram filter never indexes out of range; every n-gram keeps the offsets and the
+// position of the token it was cut from
+// ---------------------------------------------------------------------------
+
+// (the contracts of utf8.RuneCount / bytes.Runes / BuildTermFromRunes are those of package analysis)
+//@ spec cutFrom(t *analysis.Token, src *analysis.Token) bool = t.Start == src.Start && t.End == src.End && t.Position == src.Position
+//@ spec ngramsOK(rv analysis.TokenStream, input analysis.TokenStream) bool = forall(k, 0, len(rv), rv[k] != nil && exists(j, 0, len(input), cutFrom(rv[k], input[j])))
+
+//@ func NgramFilter.Filter
+//@   props C19
+//@   mode int
+//@   requires s != nil && s.minLength >= 0 && s.maxLength <= 1073741824 && forall(k, 0, len(input), input[k] != nil)
+//@   ensures ngramsOK(result, input)
+//@   loop 0: invariant fresh(rv) && ngramsOK(rv, input)
+//@   loop 1: invariant fresh(rv) && ngramsOK(rv, input) && 0 <= i && runeCount == len(runes) && forall(k, 0, len(runes), runeValid(runes[k])) && fresh(runes)
+//@   loop 2: invariant fresh(rv) && ngramsOK(rv, input) && s.minLength <= ngramSize
